@@ -97,6 +97,23 @@ def r011_frame(ctx, rule):
     ctx.ob(rule, fq, c.node, ok, "create() receives the sensitive / control feature names", construct="create feature names")
 
 
+def _never_none(ctx):
+    """_process_features returns a list on every path (no bare return, no `return None`, no fall off the end)"""
+    rp = Analysis(ctx, max_depth=0).run(MF + "._process_features", cls_ctx=MF)
+    rets = [e for e in rp.events if e.kind == "return" and e.func == rp.func]
+    vals = [e.data.get("value") for e in rets]
+    def leaves(v):
+        if v is None:
+            return [NONE]
+        if v.op == "ite":
+            return leaves(v.args[1]) + leaves(v.args[2])
+        if v.op == "assume":
+            return leaves(v.args[1])
+        return [v]
+    return bool(rets) and rp.ret is not None and all(x.op in ("list", "listappend", "listextend", "comp", "loopout", "call")
+                                                      for v in vals + [rp.ret] for x in leaves(v))
+
+
 def r016_features(ctx, rule):
     ctx.rule(rule, "MetricFrame.__init__: sensitive features are always processed, control features exactly when they are given; "
                    "their columns are added for every processed feature (control columns under no other condition), the names "
@@ -147,7 +164,9 @@ def r016_features(ctx, rule):
         extra = [g for g in guards(e) if g not in base]
         if it is sf[0].data["result"]:
             seen["s"] += 1
-            okst = okst and not extra
+            # a shared helper may test its list for None: vacuous for the sensitive features, whose list is never None
+            notnone = A.C.canon(mk("cmp", "is not", it, NONE))
+            okst = okst and (not extra or (all(g is notnone for g in extra) and _never_none(ctx)))
         elif contains(it, lambda s_: s_ is cf[0].data["result"]):
             seen["c"] += 1
             okst = okst and all(g is given or g is A.C.canon(mk("cmp", "is not", it, NONE)) for g in extra)
